@@ -45,8 +45,28 @@ def recursive_specs():
     return [engine.Spec(rules, ("p", "q"), families.inputs("()a ", 5), "zero", "recursive-template")]
 
 
+def zero_count_specs():
+    """Repetitions whose count may be zero - {0} {,0} {0,0} {0,} {0,1} {0,2} - which python-pest accepts: empty unrolled sequences."""
+    operands = (S("a"), R("n"), R("ANY"), ("grp", ("seq", (S("a"), S("b")))), ("grp", ("alt", (S("a"), S("b")))), ("pop",), ("push", S("a")))
+    forms = (("exact", 0), ("max", 0), ("minmax", 0, 0), ("min", 0), ("minmax", 0, 1), ("minmax", 0, 2), ("max", 1))
+    out = []
+    for tv in ("none", "ws"):
+        starts = []
+        for e in operands:
+            for f in forms:
+                x = (f[0], e) + tuple(f[1:])
+                for body in (x, ("seq", (x, S("a"))), ("seq", (S("a"), x)), ("seq", (S("a"), x, S("b"))), ("alt", (("seq", (x, S("b"))), S("a"))), ("opt", x), ("and", x), ("not", x), ("push", x),
+                             ("seq", (x, x)), ("seq", (("pushlit", "a"), x, ("peekall",)))):
+                    starts.append((f"r{len(starts)}", "@" if len(starts) % 3 == 2 else "", body))
+        rules = families.HELPERS + families.TRIVIA[tv] + tuple(starts)
+        names = [r[0] for r in starts]
+        for lo in range(0, len(names), 40):
+            out.append(engine.Spec(rules, tuple(names[lo:lo + 40]), families.inputs("ab ", 3), "zero", f"zero-counts({tv})"))
+    return out
+
+
 def specs(tier: str):
-    return families.c01_specs(tier, kmode="zero") + recursive_specs()
+    return zero_count_specs() + families.c01_specs(tier, kmode="zero") + recursive_specs()
 
 
 def run(tier: str) -> int:
@@ -54,7 +74,8 @@ def run(tier: str) -> int:
     return gc.run_model_check(
         C07(), specs(tier), tier, "exploration",
         bounds=[{"top": [{"n": n, "modifiers": list(m), "trivia": list(t)} for n, m, t in b["top"]], "contexts": [{"hole_size": h, "trivia": list(t)} for h, t in b["ctx"]], "max_inputs_per_rule": b["max_inputs"]}],
-        rule=families.c01_rule_text() + "; plus one recursive template p = { \"(\" ~ p ~ \")\" | \"a\" } with inputs up to length 5. Oracle: in each of the four modes the only outcomes are Pairs or PestParsingError "
+        rule=families.c01_rule_text() + "; plus the zero-counts family: {0} {,0} {0,0} {0,} {0,1} {0,2} {,1} over seven operands (literal, rule, ANY, sequence, choice, POP, PUSH) in eleven contexts, with and without implicit whitespace, inputs over {a,b,space} up to length 3"
+             "; plus one recursive template p = { \"(\" ~ p ~ \")\" | \"a\" } with inputs up to length 5. Oracle: in each of the four modes the only outcomes are Pairs or PestParsingError "
              "(any other exception, or the 20 s watchdog, is a violation) and an immediately repeated call returns an equal observation (tree, or furthest_pos + expected/unexpected sets). "
              "The families are chosen because escaping exceptions live in uncommon paths: empty stack, zero iterations, input ending mid-construct. Non-trivial: the first mode returned at least one pair",
         assumptions=["termination is only checked up to a 20 s watchdog per call"],
